@@ -34,6 +34,17 @@ CLAIMED["C11"] = dict(
     technique="Lean 4 invariant + refinement proofs over all op sequences + exact differential correspondence",
     ref="DESIGN.md §6 C11")
 
+CLAIMED["C14"] = dict(
+    text="Lean theorems about the NextFireTime loop with the location abstracted to arbitrary functions (offset in force at an instant; the instant time.Date names for a reading): soundness, no matching local reading passed over unless none of the code's candidate instants shows it after prev (gap / earlier pass of an overlap), expiry only when that holds for every matching reading ahead, termination, exactness when the offset does not change between prev and the candidate, strictly advancing chains — with NO assumption on how time.Date resolves gaps and overlaps. Tie: differential execution in IANA zones (transitions read with ZoneBounds, time.Date's two-lookup resolution transcribed and compared) around transitions, judged by a per-second wall-clock oracle that permits only the documented latitude.",
+    note="tzdata and time.Date's choice of occurrence are trusted/observed; the theorems do not depend on them",
+    technique="Lean 4 proof over an abstract zone (loop invariant + measure) + differential correspondence in IANA zones",
+    ref="DESIGN.md §6 C14")
+CLAIMED["C09"] = dict(
+    text="Lean theorems: (concurrent part) threads whose multi-step bodies run under one mutex are linearizable in lock-acquisition order under every schedule (Lock.linearizable), instantiated with the registry calls and the dispatch step; its premise is a regenerated fact (every StdScheduler method makes all queue calls after queueLocker.Lock(); defer Unlock(); the only unlocked queue calls are the loop's read-only Size/Head). (sequential part) error => registry unchanged, sentinel iff precondition, unique keys in every reachable state (Theorems/C09.lean, when present in the evidence). Tie: exact differential of every API call against the real scheduler (gated queue), an independent precondition oracle in the harness, and a linearizability search over recorded concurrent histories with default and copying queues.",
+    note="sync.Mutex = mutual exclusion is assumed; the linearizability search on recorded histories is validation, not the proof",
+    technique="Lean 4 linearizability theorem (inductive invariant over all schedules) + regenerated lock-dominance facts + differential correspondence",
+    ref="DESIGN.md §6 C09")
+
 REASON_PENDING = "check not built yet (build phase in progress); planned per DESIGN.md §6"
 
 m = {
